@@ -610,6 +610,7 @@ type watcherIn struct {
 	Strict    bool       `json:"strict"`
 	ListDelay int        `json:"listDelay"` // ms added to every informer LIST of pods
 	WidgetOn  bool       `json:"widgetOn"`  // Widget kind known to the mapper from the beginning
+	LateServe bool       `json:"lateServe"` // a new CRD's resource is served only from the CRD object's first (status-only) update on
 }
 
 type watcherOut struct {
@@ -718,8 +719,10 @@ func runWatcherCase(in watcherIn) (out watcherOut) {
 		case "set":
 			v := anyInt(step[2])
 			u := mkObj(o, v)
-			if i == oCrd && !widgetMapped {
-				// the API server serves the new resource before the CRD object's watchers hear of it
+			_, crdExists := cur[i]
+			if i == oCrd && !widgetMapped && (!in.LateServe || crdExists) {
+				// the API server serves the new resource before the CRD object's watchers hear of it; with lateServe the CRD
+				// is "established" only by its first update, which changes status alone (metadata.generation stays 1)
 				cl.mapper.set(append(append([]kindInfo{}, mapped...), kWidget))
 				widgetMapped = true
 			}
@@ -958,6 +961,7 @@ func genWatcherCase(rng *proto.Rng, ids []jid, st [][]string) watcherIn {
 	if crdScenario {
 		in.Watched = append(in.Watched, oWidget, oCrd)
 		in.WidgetOn = rng.Chance(1, 4)
+		in.LateServe = !in.WidgetOn && rng.Chance(1, 2)
 	}
 	watched := map[int]bool{}
 	for _, i := range in.Watched {
@@ -1054,8 +1058,11 @@ func genWatcherCase(rng *proto.Rng, ids []jid, st [][]string) watcherIn {
 				add("bar")
 			} else {
 				add("set", oCrd, rng.Intn(2))
+				_, existed := cur[oCrd]
 				cur[oCrd] = 0
-				crdThere = true
+				if !in.LateServe || existed {
+					crdThere = true
+				}
 				add("bar")
 			}
 		default:
@@ -1103,6 +1110,12 @@ func directWatcherCases(ids []jid, st [][]string) []watcherIn {
 		cs = append(cs, mk(scope, [][3]string{widT, crdT, podNs1}, []int{oWidget, oCrd, oPodA},
 			[][]any{s("watch"), s("set", oPodA, 1), s("bar"), s("set", oCrd, 0), s("bar"), s("set", oWidget, 0), s("set", oCrd, 1), s("bar"),
 				s("del", oWidget), s("bar"), s("del", oCrd), s("bar"), s("set", oCrd, 1), s("bar"), s("set", oWidget, 1), s("bar")}))
+		// CRD created while its resource is not yet served; established by a status-only update; then the custom resource appears
+		late := mk(scope, [][3]string{widT, crdT, podNs1}, []int{oWidget, oCrd, oPodA},
+			[][]any{s("watch"), s("set", oCrd, 0), s("bar"), s("set", oCrd, 1), s("bar"), s("set", oWidget, 0), s("bar"), s("set", oWidget, 1), s("bar"),
+				s("del", oWidget), s("bar")})
+		late.LateServe = true
+		cs = append(cs, late)
 	}
 	return cs
 }
